@@ -147,6 +147,7 @@ class Engine:
         s.snapshot = None
         s.redirect = {}; s.ufs = {}; s.sym_store_max = 1024; s.depth_limit = 0
         s.unsat_cache = set(); s.check_seq = 0; s.trace = []; s.pos = 0; s.merge_depth = 0
+        s.lockset_log = {}          # (context, region, 'w'|'r') -> set of frozenset(lock names): accumulated over all paths (lock discipline, C36)
         models.install(s)
 
     # ------------------------------------------------------------------ per-path state
@@ -159,6 +160,7 @@ class Engine:
         s.pos = 0
         s._model = None
         s.depth_limit = 0; s._errno_obj = None; s._category_system = None; s._category_generic = None
+        s.watch = []; s.lock_names = {}; s.held = []; s.ctx = None
         s.check_seq = 0
         s.steps = 0
         s.exc = None; s.caught = []
@@ -427,8 +429,16 @@ class Engine:
         s.violation('memory', '%s at 0x%x size %d' % (what, addr if isinstance(addr, int) else -1, n))
         raise PathEnd('error', what)
 
+    def note_access(s, addr, n, write):
+        """lock discipline: an access to a watched region inside a named context is logged with the set of mutexes held"""
+        for lo, hi, name in s.watch:
+            if addr < hi and addr + n > lo:
+                held = frozenset(s.lock_names.get(a, 'mutex@0x%x' % a) for a in s.held)
+                s.lockset_log.setdefault((s.ctx, name, 'w' if write else 'r'), set()).add(held)
+
     def locate(s, addr, n, write=False):
         """concrete addr -> (obj, off), with checks"""
+        if s.ctx is not None and s.watch: s.note_access(addr, n, write)
         o = s.find(addr)
         if o is None:
             s.mem_error('null pointer access' if addr < 4096 else 'access outside any object', addr, n)
